@@ -77,12 +77,17 @@ def h_order(ctx: Any, module: str, optimize: bool, deviations: int = 1, twin: bo
     if not ctx.symbolic:
         # replay: the recorded order choices are applied through the same rewrite
         symx.CTX = ctx
+    err = None
     try:
         got = _run(module, optimize, True)
+    except Exception as e:
+        err = e
+        got = []
     finally:
         if not ctx.symbolic:
             symx.CTX = None
     ctx.count('reached')
+    ctx.check(err is None, f'C18.order-dependent-failure[{module}|optimize={optimize}]', lambda: f'{module}: succeeds under the natural iteration order, raises {err!r} under this one')
     ctx.sample({'module': module, 'optimize': optimize, 'stream_lengths': [len(s) for s in got]})
     if twin:
         ctx.violation('TWIN')
@@ -223,7 +228,7 @@ def levels(tier: str) -> list[dict]:
             dv = 1 if mod in ('substitution',) else 2
             L.append(dict(label=f'orders/{mod}/optimize={opt}/deviating-iterations<={dv}', module=M, fn='h_order', kwargs=dict(module=mod, optimize=opt, deviations=dv), budget_s=bud, required=True, twin=(mod == 'chain' and opt)))
     L.append(dict(label=f'orders/generated-chains/patterns<={2 if q else 3}', module=M, fn='h_order_gen', kwargs=dict(size=2 if q else 3), budget_s=bud, required=True, twin=False))
-    for bench in ('impreflex-compressed-goal',) + (() if q else ('transfer-simple-compressed-goal',)):
+    for bench in ('impreflex-compressed-goal', 'two-variables') + (() if q else ('transfer-simple-compressed-goal',)):
         L.append(dict(label=f'orders/metamath:{bench}/optimize=True', module=M, fn='h_order', kwargs=dict(module=f'mm:{bench}', optimize=True), budget_s=bud, required=False, twin=False))
     return L
 
